@@ -83,7 +83,7 @@ impl CharacterMutator {
         vf_rate_one(rate) && value@.len() > 0 ==> r is Some, // @C15
         value@.len() == 0 ==> r is None, // @C16
         r is Some ==> r->Some_0@.len() == value@.len() && exists|i: int, c: char| 0 <= i < value@.len()
-            && '!' <= c && c <= '~' && #[trigger] value@.update(i, c) == r->Some_0@, // @C16
+            && ' ' <= c && c <= '~' && #[trigger] value@.update(i, c) == r->Some_0@, // @C16 (printable = 0x20..0x7e; the code draws 0x21..0x7e)
         r is Some && printable(value@) ==> printable(r->Some_0@), // @C04 @C17
 //@endfn
 }
